@@ -17,6 +17,8 @@
 name: mbuff.index.slack
 define: U_INDEX, U_SLACK
 src: mbuff.c
+native: mbuff
+native_includes: mbuff.c
 enforce: spif_mbuff_index
 backend: sat
 loops: 1
@@ -27,6 +29,8 @@ flags: --slice-formula
 name: mbuff.index.full
 define: U_INDEX, U_FULL
 src: mbuff.c
+native: mbuff
+native_includes: mbuff.c
 enforce: spif_mbuff_index
 backend: sat
 loops: 1
@@ -37,6 +41,8 @@ flags: --slice-formula
 name: mbuff.index.empty
 define: U_INDEX, U_EMPTY
 src: mbuff.c
+native: mbuff
+native_includes: mbuff.c
 enforce: spif_mbuff_index
 backend: sat
 loops: 1
@@ -47,6 +53,8 @@ flags: --slice-formula
 name: mbuff.rindex.found
 define: U_RINDEX, U_FOUND
 src: mbuff.c
+native: mbuff
+native_includes: mbuff.c
 enforce: spif_mbuff_rindex
 backend: sat
 loops: 1
@@ -57,6 +65,8 @@ flags: --slice-formula
 name: mbuff.rindex.nonempty
 define: U_RINDEX, U_NONEMPTY
 src: mbuff.c
+native: mbuff
+native_includes: mbuff.c
 enforce: spif_mbuff_rindex
 backend: sat
 loops: 1
@@ -67,6 +77,8 @@ flags: --slice-formula
 name: mbuff.rindex.empty
 define: U_RINDEX, U_EMPTY
 src: mbuff.c
+native: mbuff
+native_includes: mbuff.c
 enforce: spif_mbuff_rindex
 backend: sat
 loops: 1
@@ -77,6 +89,8 @@ flags: --slice-formula
 name: mbuff.find
 define: U_FIND
 src: mbuff.c
+native: mbuff
+native_includes: mbuff.c
 enforce: spif_mbuff_find
 backend: sat
 objbits: 6
@@ -86,6 +100,8 @@ flags: --slice-formula
 name: mbuff.find_from_ptr
 define: U_FIND_PTR
 src: mbuff.c
+native: mbuff
+native_includes: mbuff.c
 enforce: spif_mbuff_find_from_ptr
 backend: sat
 objbits: 6
@@ -107,6 +123,7 @@ flags: --slice-formula
 # endif
 spif_memidx_t spif_mbuff_index(spif_mbuff_t self, spif_uint8_t c)
 __CPROVER_requires(PRE(self))
+__CPROVER_requires(MB_WIT_SELF(self))
 __CPROVER_assigns()
 __CPROVER_ensures(0 <= __CPROVER_return_value && __CPROVER_return_value <= self->len)
 __CPROVER_ensures(!(__CPROVER_return_value < self->len) || self->buff[__CPROVER_return_value] == c)
@@ -131,6 +148,7 @@ void harness(void)
 # endif
 spif_memidx_t spif_mbuff_rindex(spif_mbuff_t self, spif_uint8_t c)
 __CPROVER_requires(PRE(self, c))
+__CPROVER_requires(MB_WIT_SELF(self))
 __CPROVER_assigns()
 __CPROVER_ensures(0 <= __CPROVER_return_value && __CPROVER_return_value <= self->len)
 __CPROVER_ensures(!(__CPROVER_return_value < self->len) || self->buff[__CPROVER_return_value] == c)
@@ -153,11 +171,13 @@ void harness(void)
 #  define NB(k) (other->buff[(k)])
 spif_memidx_t spif_mbuff_find(spif_mbuff_t self, spif_mbuff_t other)
 __CPROVER_requires(MBUFF_INV(self) && MBUFF_INV(other))
+__CPROVER_requires(MB_WIT_SELF(self) && MB_WIT_OTHER(other))
 # else
 #  define NLEN  ((size_t) len)
 #  define NB(k) (other[(k)])
 spif_memidx_t spif_mbuff_find_from_ptr(spif_mbuff_t self, spif_byteptr_t other, spif_memidx_t len)
 __CPROVER_requires(MBUFF_INV(self) && 0 <= len && len <= VCAP && __CPROVER_is_fresh(other, (size_t) len))
+__CPROVER_requires(MB_WIT_SELF(self))
 # endif
 __CPROVER_assigns()
 __CPROVER_ensures(0 <= __CPROVER_return_value && __CPROVER_return_value <= self->len)
@@ -173,6 +193,7 @@ void harness(void)
     spif_mbuff_find(self, other);
 # else
     spif_byteptr_t other; spif_memidx_t len;
+    w_n = len;
     spif_mbuff_find_from_ptr(self, other, len);
 # endif
     VERIF_CANARY();
